@@ -121,7 +121,12 @@ impl FsCommand {
     fn maybe_lock(path: &Path, lock: bool) -> io::Result<Option<FileLock>> {
         // A symbolic link itself cannot be locked: the lock would be taken on (or fail because of)
         // the file it points to, which the command does not touch.
-        if lock && !path.to_path_buf().is_symlink() {
+        Self::lock_followed(path, lock && !path.to_path_buf().is_symlink())
+    }
+
+    /// Obtains a lock to the file the path leads to (symbolic links are followed) if lock == true.
+    fn lock_followed(path: &Path, lock: bool) -> io::Result<Option<FileLock>> {
+        if lock {
             match FileLock::new(path) {
                 Ok(lock) => Ok(Some(lock)),
                 Err(e) if e.kind() == ErrorKind::Unsupported => Ok(None),
@@ -330,7 +335,9 @@ impl FsCommand {
                 Ok(link.metadata.len())
             }
             FsCommand::RefLink { target, link } => {
-                let _ = Self::maybe_lock(&link.path, should_lock)?;
+                // Cloning opens the path and follows a symbolic link (reported with
+                // --symbolic-links): the file it points to IS written, so it must be lockable.
+                let _ = Self::lock_followed(&link.path, should_lock)?;
                 crate::reflink::reflink(target, link, log)?;
                 Ok(link.metadata.len())
             }
